@@ -53,9 +53,8 @@ func relSetName(wide bool) string {
 	return "Realloc(T), Append(T-l) for T in {c+1, 2l-1, 2l, 2l+1, 2c-1, 2c, 2c+1, 3c+1}, T > l; AppendString(T-l) for T in {c+1, 2c+1}"
 }
 
-// extOps returns the operations the extended alphabet adds for live handle h (length l,
-// capacity c); relLeft=false: only the caller reslices.
-func extOps(c *acfg, h, l, cp int, relLeft bool) []op {
+// resliceOps: the caller reslices handle h (length l, capacity cp) to nothing and to its capacity.
+func resliceOps(h, l, cp int) []op {
 	var out []op
 	if l > 0 {
 		out = append(out, op{K: 'X', H: h, N: 0})
@@ -63,9 +62,12 @@ func extOps(c *acfg, h, l, cp int, relLeft bool) []op {
 	if l < cp {
 		out = append(out, op{K: 'X', H: h, N: cp})
 	}
-	if !relLeft {
-		return out
-	}
+	return out
+}
+
+// relOps returns the relative growth operations for live handle h (length l, capacity cp).
+func relOps(c *acfg, h, l, cp int) []op {
+	var out []op
 	absSize := map[int]bool{}
 	for _, s := range c.Sizes {
 		absSize[s] = true
@@ -131,11 +133,8 @@ func growthClass(o op, l, c int) string {
 // values on both sides of each boundary (the full sets run in the general search); quick allows
 // one relative operation per program, thorough any number from the wide set.
 func extConfigs(tier string) []*acfg {
-	wide := tier == "thorough"
-	relMax := 1
-	if wide {
-		relMax = 0
-	}
+	wide := true // (the narrow set saves nothing worth having: measured 2.4 s -> 4 s CPU per allocator)
+	relMax := 0
 	mk := func(name, kind string, b, f int, sizes, ks []int) *acfg {
 		return &acfg{Name: name + "+rel", Kind: kind, Buf: b, Free: f, Sizes: uniq(sizes), Ks: uniq(ks), Ext: true, RelMax: relMax, RelWide: wide}
 	}
@@ -143,7 +142,10 @@ func extConfigs(tier string) []*acfg {
 		mk("pooled(8,32)", "pooled", 8, 32, []int{0, 1, 8, 9, 32, 33}, []int{1, 9}),
 		mk("pooled(64,64)", "pooled", 64, 64, []int{0, 1, 64, 65}, []int{1, 65}),
 		mk("pooled(1024,1073741824)", "pooled", 1024, 1 << 30, []int{0, 1, 1024, 1025}, []int{1, 1025}),
-		mk("aligned", "aligned", 0, 0, []int{0, 1, 32, 33, 100, 32768, 32769}, []int{1, 33}),
+		// the aligned allocator's 32 KiB boundary makes every operation cost a 32-128 KiB fill and
+		// dump: the small classes and the boundary run as two searches with different depth bounds
+		mk("aligned", "aligned", 0, 0, []int{0, 1, 32, 33, 100}, []int{1, 33}),
+		mk("aligned@32K", "aligned", 0, 0, []int{0, 1, 100, 32768, 32769}, []int{1, 33}),
 		mk("std", "std", 0, 0, []int{0, 1, 10, 64, 100}, []int{1, 64}),
 	}
 }
